@@ -442,6 +442,8 @@ def rule_rvv_jit_vlen(ctx, R):
         v_ = val(nod)
         if v_ is not None:
             return v_
+        if nod['k'] in ('Null', 'NullPtr'):
+            return 0
         if nod['k'] == 'Mem' and nod.get('m') in env:
             return env[nod['m']]
         if nod['k'] == 'Ref' and nod.get('n') in env:
